@@ -995,10 +995,15 @@ def eval_fromstate(case, res, sh, pos, th, scale):
     """the same shape at an exact state of a random class, through TrajectoryPrediction (the route on which states
     without an orientation attribute get their heading)"""
     rng = random.Random(case["sub"] ^ 0x7171)
-    cls = rng.choice([KSState, PMState, "custom_pm", CustomState, PMState, "custom_pm"])
+    cls = rng.choice([KSState, PMState, "custom_pm", CustomState, PMState, "custom_pm", "both", "both"])
     v = scen.rnd(rng, 0.1, 20)
     vx, vy = rng.choice([v, -v, 0.0, v]), rng.choice([scen.rnd(rng, -5, 5), 0.0, scen.rnd(rng, -5, 5)])
-    if cls is PMState:
+    if cls == "both":
+        # a state that stores an orientation AND a lateral velocity (multi-body / custom states): the stored
+        # orientation counts, also when it is exactly 0 / 0.0 / -0.0
+        th = rng.choice([th, th, 0.0, 0, -0.0])
+        st = CustomState(time_step=1, position=pos, orientation=th, velocity=vx, velocity_y=vy or 1.5)
+    elif cls is PMState:
         st = PMState(time_step=1, position=pos, velocity=vx, velocity_y=vy)
     elif cls == "custom_pm":
         st = CustomState(time_step=1, position=pos, velocity=vx, velocity_y=vy)
